@@ -551,11 +551,11 @@ def getinputmode(data: bytes) -> int:
         or (
             data[2:4]
             in (
+                b"\x06\x00",
                 b"\x06\x01",
                 b"\x06\x02",
-                b"\x06\x03",
                 b"\x06\x31",
-            )  # CFG-INF, CFG-MSG, CFG-PRT, CFG-TP5
+            )  # CFG-PRT, CFG-MSG, CFG-INF, CFG-TP5
             and len(data) <= 10
         )
     ):
